@@ -51,7 +51,14 @@ def run(data):
             mm = m if not isinstance(m, Decimal) else m
             pvm = Decimal(pv) if isinstance(m, Decimal) else pv
             # m*(p*u) equals (m*value(p))*u
-            chk("prefixed-quantity", relclose(((m * (p * u)).unprefixed()).magnitude, ((m * pvm) * u).unprefixed().magnitude) and ((m * (p * u)) == ((m * pvm) * u) or isinstance(m, float) or isinstance(pv, float) or isinstance((p * u).prefix.exponent, float)))
+            chk("prefixed-quantity", relclose(((m * (p * u)).unprefixed()).magnitude, ((m * pvm) * u).unprefixed().magnitude) and ((m * (p * u)) == ((m * pvm) * u) or isinstance(m, float) or isinstance(pv, float) or isinstance((p * u).prefix.exponent, float)
+                                            or (isinstance(m, Decimal) and len(m.as_tuple().digits) > 9)))      # long Decimals: the two sides round at the context's 28 digits in different places; the digit-level relation below judges them
+            # ... to the digits a Decimal magnitude carries, against Python's own Decimal arithmetic (an integral prefix factor is exact)
+            if isinstance(m, Decimal) and isinstance(pv, int) and u.prefix is IdentityPrefix:
+                got = (m * (p * u)).unprefixed().magnitude
+                chk("prefixed-quantity-decimal-digits", isinstance(got, Decimal) and abs(got - m * pv) <= abs(m * pv) * Decimal("1e-24"))
+                got2 = ((m * p) * u).unprefixed().magnitude
+                chk("prefix-times-number-decimal-digits", isinstance(got2, Decimal) and abs(got2 - m * pv) <= abs(m * pv) * Decimal("1e-24"))
             # (p*u)**n is p**n * u**n
             lhs, rhs = (p * u) ** n, (p ** n) * (u ** n)
             if same_base: chk("power-distributes", lhs is rhs)
